@@ -23,16 +23,21 @@ def impl(case):
     st = np.array(case['times'], dtype=case.get('tdtype', 'int64'))
     spc = _spikes_per_cluster(sc) if len(sc) else {}
     np.random.seed(case.get('rs', 0))
+    g = case.get('gscale', 1)
+    # gscale g > 1: the chunk grid is fractional (bounds/g, floats) while spike times stay whole
+    # numbers; the model sees everything in units of 1/g
+    grid = case['bounds'] if g == 1 else [b / float(g) for b in case['bounds']]
     sel = SpikeSelector(get_spikes_per_cluster=lambda c: spc.get(c, np.array([], dtype=np.int64)),
-                        spike_times=st, chunk_bounds=case['bounds'], n_chunks_kept=case['n_kept'])
+                        spike_times=st, chunk_bounds=grid, n_chunks_kept=case['n_kept'])
     subset = None if case.get('subset') is None else np.array(case['subset'], dtype=np.int64)
     out = sel(case['count'], case['req'], subset_chunks=case['subset_chunks'], subset_spikes=subset)
-    return dict(out=[int(x) for x in out], kept=[int(x) for x in sel.chunks_kept],
+    return dict(out=[int(x) for x in out], kept=[int(round(float(x) * g)) for x in sel.chunks_kept],
                 dtype=str(np.asarray(out).dtype))
 
 
 def model_query(case, impl_res):
-    q = {k: v for k, v in case.items() if k not in ('tdtype', 'rs')}
+    q = {k: v for k, v in case.items() if k not in ('tdtype', 'rs', 'gscale')}
+    q['times'] = [t * case.get('gscale', 1) for t in case['times']]
     q['op'] = 'select'
     if 'ok' in impl_res:
         q['impl'] = impl_res['ok']['out']
@@ -70,9 +75,12 @@ def tally(rep, case, impl_res, ans):
     rep.count('subset_chunks:%s' % case['subset_chunks'])
     rep.count('subset:%s' % (case.get('subset') is not None))
     rep.count('tdtype:%s' % case.get('tdtype', 'int64'))
+    rep.count('grid:%s' % ('integer' if case.get('gscale', 1) == 1 else 'fractional(1/%d)' % case['gscale']))
+    if case.get('subset') is not None and len(set(case['subset'])) != len(case['subset']):
+        rep.count('subset_with_repeats')
     if 'ok' in ans:
         rep.count('random_choice_needed:%s' % ans['ok']['random'])
-    if set(case['times']) & set(case['bounds']):
+    if {t * case.get('gscale', 1) for t in case['times']} & set(case['bounds']):
         rep.count('spike_on_bound')
     if set(case['req']) - set(case['clusters']):
         rep.count('unknown_cluster_requested')
@@ -132,4 +140,14 @@ def gen(tier, rng):
                  subset=None, tdtype=rng.pick(['int64', 'uint64', 'float64']), rs=rng.randrange(10 ** 6))
         if rng.random() < .4 and ns:
             c['subset'] = sorted(rng.sample(range(ns), rng.randrange(0, ns + 1)))
+            if rng.random() < .3 and c['subset']:
+                # a subset given with repeated ids, in any order (e.g. two selections concatenated)
+                c['subset'] = c['subset'] + [rng.pick(c['subset']) for _ in range(rng.randrange(1, 4))]
+                rng.shuffle(c['subset'])
+        if rng.random() < .35:
+            # fractional chunk grid (bounds in units of 1/g) with whole-number spike times
+            g = rng.pick([2, 4])
+            c['gscale'] = g
+            c['bounds'] = sorted(rng.sample(range(0, 31 * g), nb))
+            c['times'] = sorted(rng.pick([rng.randrange(0, 31), rng.pick(c['bounds']) // g]) for _ in range(ns))
         yield c
